@@ -65,6 +65,7 @@ CONSTANTS Servers,     \* sequence of server addresses, the order of --servers
           Deltas,      \* amounts of time that may pass in one Advance
           OtherKinds,  \* subset of {"udp", "tcpx", "arpreq", "arpcli"}
           Strict,      \* TRUE: the documented intent where the code deviates (ServerCrash)
+          ExK,         \* export: keep one transition in ExK (ExportS)
           D            \* export depth (0: no history is kept - model checking and trace validation)
 
 VARIABLES up, now, timer, rr, probes, live, mem, flows, leaked, sent,
@@ -427,4 +428,8 @@ viewMC == <<up, timer - now, rr, [s \in SrvSet |-> RelT(probes[s])], live,
 Bound   == Len(hist) <= D
 Export  == (Len(hist) = D) => PrintT(<<"H", ToJson(hist)>>)
 ExportT == PrintT(<<"T", ToJson(hist')>>)
+\* a 1-in-ExK sample of the transitions (TLC's own generator, seeded with -seed); the transitions of the rarer
+\* paths are always kept
+ExportS == (last'.via \in {"ClientNew", "ClientKnown", "ClientNoServer", "ServerKnown", "ServerCrash", "ServerUnknown"}
+            \/ RandomElement(1..ExK) = 1) => PrintT(<<"T", ToJson(hist')>>)
 =============================================================================
